@@ -29,6 +29,7 @@ def gen_cases(run: Run, n: int):
         ins, outs = g.program()
         cases.append(B.Case(ins, outs, rng.random() < 0.3, {"legal": g.leak_p == 0.0}))
         cases[-1].meta["snapshot_problems"] = B.snapshot_problems(g.snapshots)
+        cases[-1].meta["oneshot_problems"] = list(g.oneshot_problems)
     # scope-tree skeletons (shared with C04): a value (every 2nd time an initializer) created in one scope and used in others
     from harness import c04
     sks = list(c04.enumerate_skeletons(3, 1))
@@ -90,6 +91,11 @@ def run(run: Run) -> int:
     distinct, n_exec, n_bad = set(), 0, 0
     for i, c in enumerate(cases):
         out_hist[c.impl.split(" ")[1] if c.impl.startswith("ERR") else "model"] += 1
+        if c.meta.get("oneshot_problems"):
+            n_bad += 1
+            run.fail("impl", "C01/one-shot-results-rejected", "a control-flow constructor refuses a body callback that hands its results over as a "
+                     "generator / iterator, while the same callback returning a list is accepted: " + c.meta["oneshot_problems"][0][:200],
+                     {"case": B.describe(c), "problems": c.meta["oneshot_problems"]})
         if c.meta.get("snapshot_problems"):
             n_bad += 1
             run.fail("impl", "C01/operands-not-those-of-the-call", c.meta["snapshot_problems"][0][:300], {"case": B.describe(c)})
